@@ -10,11 +10,13 @@ TRUSTED = [
     'trace validation: the real Buffer / fifo_stream / Parmapper run under harness/detsched.py (real threads, one at a time) with virtual Lock/Condition/Event/Future injected into mpservice module globals; each logged run is replayed in the model',
     'virtual primitives follow CPython semantics (harness/vprims.py; Future = stdlib source re-executed over them)',
     __import__('harness.scen_lane', fromlist=['LANE_TRUSTED']).LANE_TRUSTED,
+    __import__('harness.scen_parreal', fromlist=['PAR_TRUSTED']).PAR_TRUSTED,
+    'hand-written specification coq/Model/ParSpec.v (counters of pulled / handed-over / running; refuses the event that breaks a bound)',
 ]
 ASSUME = [
     'code between two logged shared-object operations touches only thread-local state',
     'the stdlib ThreadPoolExecutor starts at most max_workers threads (the managed pool stands in for it)',
-    'process executors are not scheduled (same mpservice code path; sampled by the repo tests only)',
+    'process executors and async worker functions are not scheduled: their interleavings are whatever the OS / event loop produces in the real-run part',
 ]
 
 
@@ -68,6 +70,7 @@ def parts():
                   bound_oracle_fifo, lambda r: r['ahead_max'] >= r['cfg']['cap'] + 2 or r['running_max'] >= 2,
                   extra_args=['greedy']),
         __import__('harness.scen_lane', fromlist=['part']).part(120, 2000),
+        __import__('harness.scen_parreal', fromlist=['part']).part(24, 400),
     ]
 
 
@@ -85,5 +88,8 @@ def check(tier, seed, replay=None):
              'the runs use producer-first greedy to drive queues to their bounds) from one PRNG seeded by VERIF_SEED; each run '
              'executes the real code under the deterministic scheduler and is replayed event by event in the Coq model; '
              'non-trivial = the run came within one of the proved bound (buffer: ahead >= n+1; fifo: ahead >= cap+2 or two '
-             'workers running at once); distinct = distinct (configuration, event trace)',
+             'workers running at once); distinct = distinct (configuration, event trace). Real-run part: Stream.parmap with '
+             'executor=thread/process or an async worker, concurrency 1-4, finite and endless sources, early stop, slow / bursty '
+             'consumers, worker durations 2-20 ms; non-trivial = `concurrency` (>= 2) invocations seen running at once or look-ahead '
+             'within one of capacity+3',
         replay=replay, post=post)
